@@ -9,11 +9,32 @@ static long nfail;
 /* run the real gf_invert_matrix on a copy; oracle: success <=> full rank, and original x result == I */
 static void inv_case(const uint8_t *m, int n, const char *family, uint64_t idx)
 {
-	static uint8_t in[NM * NM], out[NM * NM], prod[NM * NM];
+	static uint8_t prod[NM * NM];
 	char key[200];
+	/* both matrices are exactly n*n bytes and end at an inaccessible page (canaries in front): any access beyond them shows */
+	uint8_t *in = g_alloc((size_t)n * n, G_END), *out = g_alloc((size_t)n * n, G_END);
 	memcpy(in, m, n * n);
 	memset(out, 0xEE, n * n);
-	int r = gf_invert_matrix(in, out, n);
+	int r = -999;
+	if (V_TRY()) {
+		r = gf_invert_matrix(in, out, n);
+		V_END();
+	} else {
+		snprintf(key, sizeof key, "gf_invert_matrix fault family=%s n=%d idx=%llu", family, n, (unsigned long long)idx);
+		v_violation(key, "%s; matrix=%s (the matrix buffers are exactly n*n bytes)", v_fault_desc(), v_hex(m, n * n));
+		nfail++;
+		g_reset();
+		return;
+	}
+	if (g_check()) {
+		snprintf(key, sizeof key, "gf_invert_matrix wrote-outside family=%s n=%d idx=%llu", family, n, (unsigned long long)idx);
+		v_violation(key, "%s; matrix=%s", g_last_damage(), v_hex(m, n * n));
+		nfail++;
+	}
+	static uint8_t outc[NM * NM];
+	memcpy(outc, out, (size_t)n * n);
+	g_reset();
+	out = outc;
 	int rank = rgf_rank(m, n, n);
 	v_eval();
 	if ((r == 0) != (rank == n)) {
